@@ -10,7 +10,7 @@
    duplicated where the Rust duplicates them.  Panic sites (unwrap, alignments[i], panic!()) are
    explicit.  No proofs here. *)
 From Coq Require Import List NArith Bool Strings.String.
-From V Require Import Base.Bytes Base.Res Gen.Tables Gen.Ctype Gen.Scanners Model.Escape Model.Tagfilter0 Model.Ast Spec.EscapeSpec.
+From V Require Import Base.Bytes Base.Res Gen.Tables Gen.Ctype Gen.Scanners Model.Escape Model.Tagfilter Model.Ast Spec.EscapeSpec.
 Import ListNotations.
 Local Open Scope string_scope.
 Local Open Scope list_scope.
